@@ -454,7 +454,7 @@ def check(tier, seed, t0):
     merged = common.merge(results)
     c = merged["counters"]
     k = 1 if not th else 8
-    guards = [("queries", c.get("queries", 0), 3500 * k), ("(object, query) judgements", c.get("judgements", 0), 120000 * k),
+    guards = [("queries", c.get("queries", 0), 2500 * k), ("(object, query) judgements", c.get("judgements", 0), 90000 * k),
               ("expected matches", c.get("expected_match", 0), 5000 * k), ("expected non-matches", c.get("expected_nomatch", 0), 5000 * k),
               ("calendar-data comparisons", c.get("calendar_data_compared", 0), 3000 * k)]
     rows = sorted({lab.rsplit("/", 1)[0] for (lab, _, _, _) in row_objects()})
